@@ -257,23 +257,35 @@ def order_rows(tv, rows, spec):
     fams = set()
     for r in rows:
       v = tv.value(r, col)
-      if v is UNCONSTRAINED or isinstance(v, (Alt, eq.Err)):
+      if v is UNCONSTRAINED or isinstance(v, eq.Err):
         return UNCONSTRAINED
-      fams.add(family(v))
+      fams.add("alt" if isinstance(v, Alt) else family(v))
       vals[r] = v
-    # the property's precondition: sort values mutually comparable. Blank cells (None) are part
-    # of the engine's documented order: less than everything else, equal among themselves.
-    if len(fams - {"none"}) > 1 or not fams <= {"num", "str", "date", "dt", "none"}:
+    # Values of one kind compare as such. Across kinds the engine documents a fallback order
+    # (sort_key.py / SafeSortKey): blanks first, then numbers, then everything else by the name
+    # of its type; two values of one kind that cannot be compared (two blanks, two alt texts)
+    # count as equal. Anything else (lists, booleans among numbers, NaN) is not modelled.
+    if not fams <= {"num", "str", "date", "dt", "none", "alt"}:
       return UNCONSTRAINED
     cols.append((vals, sign))
   import functools
+  def kind(v):
+    if v is None:
+      return (0, 0, "")
+    if isinstance(v, Alt):
+      return (1, 1, "AltText")
+    f = family(v)
+    if f == "num":
+      return (1, 0, "number")
+    return (1, 1, {"str": "str", "date": "date", "dt": "datetime"}[f])
   def cmp(a, b):
     for vals, sign in cols:
       x, y = vals[a], vals[b]
-      if x is None or y is None:
-        if x is None and y is None:
-          continue
-        return -sign if x is None else sign
+      kx, ky = kind(x), kind(y)
+      if kx != ky:
+        return -sign if kx < ky else sign
+      if x is None or isinstance(x, Alt):
+        continue
       if x < y:
         return -sign
       if y < x:
